@@ -352,3 +352,7 @@ pub enum Payload<'a> {
     /// An Aranya command.
     Control(&'a [u8]),
 }
+
+#[cfg(kani)]
+#[path = "/verif/kani/aranya-fast-channels/client.rs"]
+mod verif_kani;
